@@ -155,19 +155,41 @@ def _opt_chain(ctx):
     return best, f
 
 
-def _dget_of(body):
+def _dget_names(fnode):
+    """names that stand for cfg.dget in the function"""
+    out = {'dget', 'cfg.dget'}
+    for a in ast.walk(fnode):
+        if isinstance(a, ast.Assign) and dotted(a.value) == 'cfg.dget':
+            for t in a.targets:
+                if isinstance(t, ast.Name):
+                    out.add(t.id)
+    return out
+
+
+def _dget_of(body, names=('dget', 'cfg.dget')):
+    """the dget call of a branch, its Name arguments resolved through plain assignments
+    made earlier in the same branch (default = 1; dget(section, opt, default, int))"""
+    local = {}
     for st in body:
+        if isinstance(st, ast.Assign) and len(st.targets) == 1 and \
+                isinstance(st.targets[0], ast.Name):
+            local[st.targets[0].id] = st.value
         for c in ast.walk(st):
-            if isinstance(c, ast.Call) and dotted(c.func) in ('dget', 'cfg.dget') and len(c.args) >= 2:
-                return c
+            if isinstance(c, ast.Call) and dotted(c.func) in names and len(c.args) >= 2:
+                import copy
+                c2 = copy.copy(c)
+                c2.args = [local.get(a.id, a) if isinstance(a, ast.Name) and a.id != 'opt' else a
+                           for a in c.args]
+                return c2
     return None
 
 
 def option_types(ctx):
     chain, f = _opt_chain(ctx)
     types = {}
+    dnames = _dget_names(f.node)
     for keys, pre, body, test in chain:
-        c = _dget_of(body)
+        c = _dget_of(body, dnames)
         info = {'reader': None, 'type': 'str', 'default': None, 'dget_key': None, 'body': body,
                 'test': test}
         txt = ' '.join(norm_text(s) for s in body)
@@ -468,11 +490,16 @@ def r3(run, ctx):
         if norm_text(e) == "watcher['copy_env']":
             return True
         return None
+    # one analysis per value of copy_env: what the watcher's env starts from
+    from sa.idioms import combine
     got = {}
-    for n in wenv:
-        for flag in (True, False):
-            if guarded(cfg, n, copy_env, flag):
-                got.setdefault(flag, set()).update(la.at(n, n.ast.value) or {('?',)})
+    for flag in (True, False):
+        laf = LayerAnalysis(cfg, _env_source, assume=combine(
+            _env_section_present, lambda e, flag=flag: (None if copy_env(e) is None else flag)))
+        for n in wenv:
+            lay = laf.at(n, n.ast.value)
+            if laf.IN.get(n.id) is not None:
+                got.setdefault(flag, set()).update(lay or {('?',)})
     from rules.common import is_fresh_container
     for n in wenv:
         a = n.ast
@@ -497,10 +524,10 @@ def r3(run, ctx):
         run.check('R3', "section.split('env:', 1)[1]" in lt and ".split(',')" in lt and
                   's.strip()' in lt, 'the pattern list is split on commas and stripped', f, loops[0],
                   'comma-separated watcher lists in env: sections are not honoured')
-        run.check('R3', "fnmatch(w['name'], pattern)" in lt, 'patterns are matched with fnmatch '
+        run.check('R3', astq.has_pattern(lt, "fnmatch($w['name'], pattern)"), 'patterns are matched with fnmatch '
                   'against the watcher name', f, loops[0], 'wildcards in env: sections are not '
                   'honoured')
-        run.check('R3', "watcher['env'].update(env_items)" in lt, 'a matching section overrides '
+        run.check('R3', astq.has_pattern(lt, "$w['env'].update(env_items)"), 'a matching section overrides '
                   'what is already there (later sections win)', f, loops[0],
                   'env: sections do not override earlier values')
         run.check('R3', 'cfg.items(section, noreplace=True)' in lt, 'section values are taken raw '
@@ -508,20 +535,27 @@ def r3(run, ctx):
         # the loop runs after all watchers were collected
         wl = [n for n in ast.walk(f.node) if isinstance(n, ast.For) and
               norm_text(n.iter) == 'cfg.sections()' and "startswith('watcher:')" in norm_text(n)]
-        run.check('R3', bool(wl) and wl[0].lineno < loops[0].lineno, 'env: sections are applied '
+        def strictly_before(a, b):
+            """loop statement a is completed before loop statement b starts (CFG order)"""
+            na = [n for n in cfg.nodes if n.kind == 'iter' and n.ast is a]
+            nb = [n for n in cfg.nodes if n.kind == 'iter' and n.ast is b]
+            return bool(na) and bool(nb) and cfg.reachable(na[0], nb[0]) and \
+                not cfg.reachable(nb[0], na[0])
+        run.check('R3', bool(wl) and strictly_before(wl[0], loops[0]), 'env: sections are applied '
                   'after every watcher section was read', f, loops[0])
-    # expansion env of a watcher
+    # expansion env of a watcher (the per-option loop is _expand_section, inlined by the
+    # canonical form)
     exp = [n for n in ast.walk(f.node) if isinstance(n, ast.For) and norm_text(n.iter) == 'watchers'
-           and '_expand_section' in norm_text(n)]
+           and '_expand_vars' in norm_text(n)]
     if run.need('R3', exp, 'per-watcher expansion loop', f):
         hdr = [n for n in cfg.nodes if n.kind == 'iter' and n.ast is exp[0]]
         calls = [(n, c) for n in nodes_within(cfg, exp[0].body) for c in n.calls()
-                 if astq.call_last(c) == '_expand_section' and len(c.args) == 2]
-        if run.need('R3', calls if hdr else [], '_expand_section(watcher, env) call', f):
+                 if astq.call_last(c) == '_expand_vars' and len(c.args) == 3]
+        if run.need('R3', calls if hdr else [], '_expand_vars(watcher, option, env) call', f):
             sub = LayerAnalysis(cfg, lambda e: None, seeds={hdr[0].id: {
                 'global_env': frozenset([('G',)]), "watcher['env']": frozenset([('W',)])}})
             for n, c in calls:
-                lay = sub.at(n, c.args[1])
+                lay = sub.at(n, c.args[2])
                 run.check('R3', lay == {('G', 'W')}, "a watcher's options are expanded with the "
                           'global environment overlaid by its own env', f, n.ast,
                           'the expansion environment layers are %s' % sorted(lay or []),
@@ -529,7 +563,7 @@ def r3(run, ctx):
                 run.check('R3', norm_text(c.args[0]) == norm_text(exp[0].target),
                           'every watcher is expanded with that environment', f, n.ast)
         if loops:
-            run.check('R3', exp[0].lineno > loops[0].lineno, 'expansion happens after the env: '
+            run.check('R3', strictly_before(loops[0], exp[0]), 'expansion happens after the env: '
                       'sections were applied', f, exp[0])
 
 
@@ -588,29 +622,46 @@ def r4(run, ctx):
             n_exp += 1
     run.check('R4', good and n_exp >= 1, '%s expands every value' % f.qualname, f, f.node,
               '%s returns unexpanded values' % f.qualname)
-    # _expand_section: every option except name and env
-    es = ctx.fn(G + '._expand_section')
+    # every option of a watcher except name and env is expanded (the loop of the nested
+    # helper _expand_section; the canonical form inlines it into get_config)
+    es = ctx.fn(G)
     cfg = ctx.cfg(es)
     rd = reaching_defs(ctx, es)
-    loops = [n for n in cfg.nodes if n.kind == 'iter' and
-             norm_text(n.ast.iter) in ('section.keys()', 'section', 'list(section.keys())',
-                                       'list(section)') and isinstance(n.ast.target, ast.Name)]
+    loops = [n for n in cfg.nodes if n.kind == 'iter' and isinstance(n.ast.target, ast.Name) and
+             isinstance(n.ast.iter, ast.Call) and astq.call_last(n.ast.iter) == 'keys' and
+             any(astq.call_last(c) == '_expand_vars' for b in nodes_within(cfg, n.ast.body)
+                 for c in b.calls())]
     ok = False
     if loops:
         lv = loops[0].ast.target.id
+        subject = norm_text(loops[0].ast.iter.func.value)
         calls = [n for n in nodes_within(cfg, loops[0].ast.body) for c in n.calls()
                  if astq.call_last(c) == '_expand_vars' and
-                 [norm_text(a) for a in c.args] == ['section', lv, 'env']]
+                 [norm_text(a) for a in c.args][:2] == [subject, lv]]
         tests = [t for t in nodes_within(cfg, loops[0].ast.body) if t.kind == 'test']
-        # the only condition on the way to the call is `<option> not in exclude`
-        ok = bool(calls) and all(member_test(t.ast, lv, 'exclude') is not None for t in tests) and \
-            all(guarded(cfg, c, lambda e: member_test(e, lv, 'exclude'), False) for c in calls)
-        # ... and the default exclusion is exactly {name, env}
-        dflt = [d for t in tests for d in rd.reaching(t, 'exclude') if d.kind == 'assign']
-        ok = ok and bool(dflt) and all(
-            isinstance(d.value, (ast.Tuple, ast.List, ast.Set)) and
-            {astq.const_value(x) for x in d.value.elts} == {'name', 'env'} for d in dflt)
-    run.check('R4', ok, '_expand_section visits every option except name and env', es, es.node)
+        excl = None
+        for t in tests:
+            if isinstance(t.ast, ast.Compare) and norm_text(t.ast.left) == lv and \
+                    isinstance(t.ast.ops[0], (ast.In, ast.NotIn)):
+                excl = norm_text(t.ast.comparators[0])
+        # the only condition on the way to the call is `<option> not in <exclusions>`
+        ok = bool(calls) and excl is not None and \
+            all(member_test(t.ast, lv, excl) is not None for t in tests) and \
+            all(guarded(cfg, c, lambda e: member_test(e, lv, excl), False) for c in calls)
+        # ... and the exclusion set is exactly {name, env}
+        vals = []
+        for t in tests:
+            for a in rd.expand(t, t.ast.comparators[0]):
+                vals.append(a.expr)
+        # `exclude=None` replaced by the default set under `if exclude is None`: the None
+        # itself never reaches the membership test
+        from sa.idioms import none_test
+        if excl is not None and any(none_test(x, excl) is not None for x in ast.walk(es.node)):
+            vals = [v for v in vals if not (isinstance(v, ast.Constant) and v.value is None)]
+        ok = ok and bool(vals) and all(
+            isinstance(v, (ast.Tuple, ast.List, ast.Set)) and
+            {astq.const_value(x) for x in v.elts} == {'name', 'env'} for v in vals)
+    run.check('R4', ok, 'every watcher option except name and env is expanded', es, es.node)
     # _expand_vars: strings are expanded in place, dict values recursively
     ev = ctx.fn(G + '._expand_vars')
     cfg = ctx.cfg(ev)
